@@ -1,8 +1,16 @@
 pub mod c10;
+pub mod c21;
+pub mod c28;
+pub mod c29;
+pub mod c35;
 
 pub fn dispatch(id: &str, args: &[String]) -> ! {
     match id {
         "C10" => c10::run(args),
+        "C21" => c21::run(args),
+        "C28" => c28::run(args),
+        "C29" => c29::run(args),
+        "C35" => c35::run(args),
         _ => {
             eprintln!("MACHINERY-ERROR unknown check {id}");
             std::process::exit(2);
